@@ -44,6 +44,15 @@ CLAIMS = {
             "found - abidw hung on a `../` .gnu_debugaltlink - and repaired)",
             "elfutils' own memory safety; the DWARF part of the reader; ppc64-only paths are listed as undecided",
             "§3 R-ELFNULL, R-ELFBOUND, R-INASSERT; §4 C34"),
+    "C43": ("finite-world interpretation of every accessor that switches over die_source, reaching-enumerator dataflow over "
+            "the unit walks, and a guard rule at the classification site of type units",
+            "type-unit clause only: DIEs of the three debug-info sources are kept in distinct containers (R-DIESRC), each "
+            "section is walked under its own source tag with the matching libdw handle and offdie function (R-UNITSRC), "
+            "and a unit is filed under the .debug_types source only after its DWARF version was looked at (R-TUSECTION: "
+            "today it is not - DWARF 5 type units are lost, a recorded and replayed finding)",
+            "the DWARF contents themselves (forms, DWARF 4 vs 5 attribute encodings, column information) are decoded by "
+            "elfutils and interpreted at run time",
+            "§8.6 (added after the design: C43 was first declared not applicable)"),
     "C14": ("type-directed loop classification (address-dependent containers from canonical template arguments) and "
             "pointer-comparison lint over every comparator handed to std::sort and the ordering helpers it delegates to",
             "loops over pointer-keyed / interned_string-keyed unordered containers and pointer-ordered sets never "
@@ -362,7 +371,6 @@ NOT_APPLICABLE = {
     "C15": "values decoded from DWARF by elfutils and interpreted by the reader; the oracle is a compiler, nothing static bounds it",
     "C16": "values decoded from DWARF (signatures) against source; runtime oracle",
     "C35": "generic memory safety / UB of 120 kLOC has no repo-specific structural rule; sanitizers are a dynamic technique",
-    "C43": "debug-info format independence: runtime values decoded by elfutils",
 }
 
 PENDING = "static rule designed (see DESIGN.md §3/§4) but its checker is not built yet, so the property is not claimed"
